@@ -25,6 +25,23 @@ from . import source
 _SHARED = {}     # per-process caches (placeholder literals, clause-set formulas); one engine per process
 
 
+def ctor_closure(cnode):
+    """the constructor of a class as the interpreter sees it: __init__ / __attrs_post_init__ and, transitively, the
+    methods of the same class they call on self (e.g. Boss._init_other_state)"""
+    meths = {it.name: it for it in cnode.body if isinstance(it, ast.FunctionDef)}
+    out, todo = [], [n for n in ("__init__", "__attrs_post_init__") if n in meths]
+    seen = set(todo)
+    while todo:
+        m = meths[todo.pop(0)]
+        out.append(m)
+        for node in ast.walk(m):
+            if isinstance(node, ast.Call) and isinstance(node.func, ast.Attribute) and isinstance(node.func.value, ast.Name) \
+                    and node.func.value.id == "self" and node.func.attr in meths and node.func.attr not in seen:
+                seen.add(node.func.attr)
+                todo.append(node.func.attr)
+    return out
+
+
 class Component:
     """something with a small finite domain that invariant clauses talk about"""
 
@@ -73,9 +90,7 @@ class Cluster:
         spec = self.spec
         known = set(spec.fields.get(cd.name, {})) | set(spec.const_fields.get(cd.name, {}))
         self.discovered = getattr(self, "discovered", [])
-        for item in cd.node.body:
-            if not (isinstance(item, ast.FunctionDef) and item.name in ("__init__", "__attrs_post_init__")):
-                continue
+        for item in ctor_closure(cd.node):
             for st in item.body:
                 if not (isinstance(st, ast.Assign) and len(st.targets) == 1 and isinstance(st.targets[0], ast.Attribute)
                         and isinstance(st.targets[0].value, ast.Name) and st.targets[0].value.id == "self"
